@@ -120,10 +120,12 @@ class Prov:
                 a0 = self.of_op(t["args"][0])
                 if last == "zip" and len(t["args"]) == 2:
                     changed |= self._add(d, {("P", frozenset(a0), frozenset(self.of_op(t["args"][1])))})
-                elif last in ("all", "any", "find", "position", "map", "filter", "for_each") and len(t["args"]) == 2:
-                    for lab in self.of_op(t["args"][1]):
-                        if isinstance(lab, tuple) and lab[0] == "CL":
-                            self.closure_item[lab[1]] = (last, frozenset(a0))
+                elif last in ("all", "any", "find", "position", "map", "filter", "for_each", "is_some_and", "is_none_or", "is_ok_and", "and_then",
+                              "map_or", "filter_map", "find_map", "try_for_each", "inspect") and len(t["args"]) >= 2:
+                    for arg in t["args"][1:]:
+                        for lab in self.of_op(arg):
+                            if isinstance(lab, tuple) and lab[0] == "CL":
+                                self.closure_item[lab[1]] = (last, frozenset(a0))
                 elif last in PASS0:
                     changed |= self._add(d, a0)
 
@@ -179,6 +181,7 @@ def analyse(lib, fid, targets=None):
             last = c.path.rsplit("::", 1)[-1]
             if last in ("all", "any") and len(c.args) == 2:
                 combs.append((p.b, c, last, p.of_op(c.args[0])))
+    analyse.last_provs = provs
     return b, calls, combs
 
 
@@ -360,13 +363,13 @@ def run(ctx):
             if which != "all":
                 res.bad("variance:function|all", "all parameters must be compared (found `%s`)" % which, cb.where(c.line))
     # ---- StructType::matches
-    sb, scalls, _ = analyse(lib, SM)
+    sb, scalls, scombs = analyse(lib, SM)
     if res.anchor(sb is not None, SM):
-        p = Prov(lib, sb, {1: {"S"}, 2: {"O"}})
-        iters = [c for c in sb.calls if c.path.rsplit("::", 1)[-1] in ("iter", "keys") and "HashMap" in c.path]
-        gets = [c for c in sb.calls if c.path.rsplit("::", 1)[-1] in ("get", "contains_key") and "HashMap" in c.path]
+        provs = list(analyse.last_provs.values())
+        iters = [(p, c) for p in provs for c in p.b.calls if c.path.rsplit("::", 1)[-1] in ("iter", "keys") and "HashMap" in c.path]
+        gets = [(p, c) for p in provs for c in p.b.calls if c.path.rsplit("::", 1)[-1] in ("get", "contains_key") and "HashMap" in c.path]
         key = "variance:struct|width"
-        ok = bool(iters) and bool(gets) and all(side(p.of_op(c.args[0])) == "O" for c in iters) and all(side(p.of_op(c.args[0])) == "S" for c in gets)
+        ok = bool(iters) and bool(gets) and all(side(p.of_op(c.args[0])) == "O" for p, c in iters) and all(side(p.of_op(c.args[0])) == "S" for p, c in gets)
         if ok:
             res.ok(key, sb.where(), "the fields of the right type are iterated and looked up in the left type (extra fields on the left are fine)")
         else:
@@ -380,6 +383,9 @@ def run(ctx):
             else:
                 res.bad(key, "struct fields are compared %s against %s" % (_name(side(a0)), _name(side(a1))), cb.where(c.line))
         res.anchor(bool(scalls), "field comparison in StructType::matches")
+        for cb, c, which, recv in scombs:
+            if side(recv) == "O" and which != "all":
+                res.bad("variance:struct|all", "every field the right type demands must be present and match (found `%s` over its fields)" % which, cb.where(c.line))
     res.stats["comparisons"] = n
     return res
 
